@@ -378,3 +378,50 @@ Theorem C02_query_guard_sound_refuted_exploded_object :
   wire_count q_exploded = 1%nat.
 Proof. exact query_guard_sound_refuted_exploded. Qed.
 Print Assumptions C02_query_guard_sound_refuted_exploded_object.
+
+(* ===== Part F: the validator behind the guard of negative_schema reads the schema as Draft 4 (boolean exclusives) ===== *)
+(* inside the numeric fragment (type, integer minimum / maximum, BOOLEAN exclusiveMinimum / exclusiveMaximum in any
+   combination and key order, annotations) the keyword dispatch of the validator of the code is the validity of the
+   schema as declared (OpenAPI 2.0 / 3.0 = Draft 4: the exclusive flags modify their bound, false = absent, a flag
+   without its bound says nothing) *)
+Theorem C02_guard_validator_is_draft4 : forall schema v,
+  num_fragment schema = true -> guard_is_valid Draft4 schema v = declared_valid schema v.
+Proof. exact guard_validator_is_draft4. Qed.
+Print Assumptions C02_guard_validator_is_draft4.
+
+(* hence a value that passes the guard (is emitted, labelled negative) is invalid for the declared schema *)
+Theorem C02_guard_kept_value_invalid : forall schema v,
+  num_fragment schema = true -> guard_keeps Draft4 schema v = true -> declared_valid schema v = false.
+Proof. exact guard_kept_value_invalid. Qed.
+Print Assumptions C02_guard_kept_value_invalid.
+
+(* the same for a parameter location (properties / required / additionalProperties false) whose members are in the fragment *)
+Theorem C02_location_guard_kept_value_invalid : forall props req q,
+  forallb (fun p => num_fragment (snd p)) props = true ->
+  location_guard_keeps Draft4 props req q = true -> location_is_valid declared_valid props req q = false.
+Proof. exact location_guard_kept_value_invalid. Qed.
+Print Assumptions C02_location_guard_kept_value_invalid.
+
+Theorem C02_guard_hypotheses_satisfiable :
+  num_fragment s_ratio = true /\ guard_keeps Draft4 s_ratio (JInt 0) = true /\ guard_keeps Draft4 s_ratio (JInt 11) = true /\
+  guard_keeps Draft4 s_ratio (JInt 10) = false /\ guard_keeps Draft4 s_ratio (JStr []) = true /\
+  num_fragment s_limit = true /\ guard_keeps Draft4 s_limit (JInt 51) = true /\ guard_keeps Draft4 s_limit (JInt 0) = false /\
+  forallb (fun p => num_fragment (snd p)) [(k_limit, s_limit)] = true /\
+  location_guard_keeps Draft4 [(k_limit, s_limit)] [k_limit] [(k_limit, JInt (-1))] = true /\
+  location_guard_keeps Draft4 [(k_limit, s_limit)] [k_limit] [] = true.
+Proof. exact guard_draft4_nonvacuous. Qed.
+Print Assumptions C02_guard_hypotheses_satisfiable.
+
+(* sentinel, NOT the code: a validator of a later draft (numeric exclusive keywords, True / False compared as 1 / 0)
+   keeps values that are valid for the declared schema: 0 for maximum 100 + exclusiveMaximum false, 1 for
+   minimum 0 + exclusiveMinimum true, limit = 26 for the query location; the Draft 4 guard of the code rejects all three *)
+Theorem C02_guard_draft7_sentinel_refuted :
+  num_fragment s_max_false = true /\ guard_keeps Draft7 s_max_false (JInt 0) = true /\
+  declared_valid s_max_false (JInt 0) = true /\ guard_keeps Draft4 s_max_false (JInt 0) = false /\
+  num_fragment s_ratio = true /\ guard_keeps Draft7 s_ratio (JInt 1) = true /\
+  declared_valid s_ratio (JInt 1) = true /\ guard_keeps Draft4 s_ratio (JInt 1) = false /\
+  location_guard_keeps Draft7 [(k_limit, s_limit)] [k_limit] [(k_limit, JInt 26)] = true /\
+  location_is_valid declared_valid [(k_limit, s_limit)] [k_limit] [(k_limit, JInt 26)] = true /\
+  location_guard_keeps Draft4 [(k_limit, s_limit)] [k_limit] [(k_limit, JInt 26)] = false.
+Proof. exact guard_draft7_sentinel_refuted. Qed.
+Print Assumptions C02_guard_draft7_sentinel_refuted.
